@@ -22,7 +22,7 @@ REQUIRED = ["Sqfs.C07.resolve_links_terminates", "Sqfs.C07.resolve_ok_targets", 
             "Sqfs.C07.parse_uint_in_bounds_nul", "Sqfs.C07.parse_int_in_bounds", "Sqfs.C07.hex_decode_bounds",
             "Sqfs.C07.base64_decode_bounds", "Sqfs.C07.split_line_total", "Sqfs.C07.read_pax_header_total",
             "Sqfs.C07.sparse_map_new_bounds", "Sqfs.C07.sparse_map_old_bounds", "Sqfs.C07.decode_filename_bounds",
-            "Sqfs.C07.xattr_decode_bounds"]
+            "Sqfs.C07.xattr_decode_bounds", "Sqfs.C07.read_header_total", "Sqfs.C07.read_lines_chunking_independent"]
 WITNESS_MODULE = "Sqfs.Witness.C07"
 
 KEY_D12 = "D12:resolve_link:cycle-not-through-start"
@@ -523,6 +523,98 @@ def gen_parser_lines(ctx):
             stream = stream[:rng.randrange(len(stream) + 1)]
         L.append("spold %s %s" % (tok(bytes(h)), tok(stream)))
     L += gen_getline_lines(ctx)
+    L += gen_readheader_lines(ctx)
+    return L
+
+
+def gen_readheader_lines(ctx):
+    """whole streams for `read_header` (op rh: every member of the stream): the reference archives of every dialect, their
+    structure-aware mutations and truncations, extension records around TAR_MAX_*_LEN with all data present, chains of
+    L / K / x / g records, zero blocks and short tails, old and new GNU sparse maps, names nested beyond the limit"""
+    rng, q = ctx.rng, ctx.quick()
+    seeds = [(n, d) for n, d in tar_seeds() if len(d) <= 40960]
+    infra(len(seeds) >= 20, "only %d small reference archives for the read_header generator" % len(seeds))
+    L = []
+    def add(data):
+        L.append("rh %s" % tok(data))
+    for n, d in seeds:
+        add(d)
+    for _ in range(2500 if q else 30000):
+        n, d = rng.choice(seeds)
+        m = TL.mutate_tar(rng, d)
+        for _ in range(rng.choice([0, 0, 1, 2])):
+            m = TL.mutate_tar(rng, m)
+        if rng.random() < 0.15 and m:
+            m = m[:rng.randrange(len(m))]                                      # cut anywhere: short header, short record, short padding
+        add(m[:24576])
+    limits = tar_limits()
+    for _ in range(40 if q else 400):
+        add(TL.tar_size_gate(rng, limits)[0])
+    for _ in range(60 if q else 600):
+        add(TL.tar_sparse_inconsistent(rng)[0][:16384])
+    # chains of extension records in front of one member
+    H = TL.mk_header
+    def member():
+        t = rng.choice([b"0", b"0", b"\0", b"1", b"2", b"3", b"4", b"5", b"6", b"7", b"S", b"V", b"x" if rng.random() < 0.05 else b"0"])
+        magic = rng.choice([b"ustar\x0000", b"ustar\x0000", b"ustar  \0", b"\0" * 8, b"ustar\x0001", b"USTAR\x0000"])
+        h = bytearray(H(rng.choice([b"m", b"dir/m", b"a/../b", b"", b"x" * 100]), rng.choice([0, 0, 3, 512, 600]), t, rng.choice([b"", b"tgt", b"t" * 100]), magic))
+        if rng.random() < 0.3:
+            p = rng.choice([b"pre", b"p" * 155, b"/abs", b"a/b/"])
+            h[345:345 + len(p)] = p
+        if rng.random() < 0.3:
+            off, ln = rng.choice([(100, 8), (108, 8), (116, 8), (124, 12), (136, 12), (329, 8), (337, 8), (148, 8)])
+            h[off:off + ln] = TL.num_variants(rng, ln, h[off:off + ln])[:ln].ljust(ln, b"\0")
+        if rng.random() < 0.85:
+            TL.fix_checksum(h)
+        size = TL.parse_size(h) or 0
+        return bytes(h) + bytes(rng.randrange(256) for _ in range(min(size, 1024))).ljust(min((size + 511) // 512 * 512, 1024), b"\0")
+    def ext():
+        k = rng.choice("LKxxg")
+        if k == "L":
+            p = rng.choice([b"long/name", b"n" * 300, b"a/" * 200 + b"z", b"", b"../up", b"with\0nul"])
+            return TL.ext_record(b"L", p + b"\0", rng.choice([None, None, len(p), len(p) + 1 + 600, 0, 65537]))
+        if k == "K":
+            p = rng.choice([b"target", b"t" * 5000, b"", b"x/../y"])
+            return TL.ext_record(b"K", p + b"\0", rng.choice([None, None, 0, len(p) + 2000]))
+        if k == "g":
+            p = TL.pax_rec(b"comment", b"global")
+            big = bytes([0x80]) + (rng.choice([2**64 - 1, 2**64 - 511, 2**63, 1 << 40])).to_bytes(11, "big")
+            h = bytearray(H(b"pax_global", len(p), b"g"))
+            if rng.random() < 0.3:
+                h[124:136] = big
+                TL.fix_checksum(h)
+            return bytes(h) + p.ljust(512, b"\0")
+        recs = b"".join(TL.pax_rec(rng.choice(TL.PAXKEYS), rng.choice([b"1", b"0", b"abc", b"0,512", b"18446744073709551615", b"-5", b"QUJD", b"a/b", b""]))
+                        for _ in range(rng.choice([1, 1, 2, 4])))
+        return TL.ext_record(b"x", recs, rng.choice([None, None, None, len(recs) - 1, len(recs) + 1, 0]))
+    for _ in range(1200 if q else 15000):
+        parts = [ext() for _ in range(rng.choice([0, 1, 1, 2, 3]))] + [member()]
+        if rng.random() < 0.3:
+            parts.insert(rng.randrange(len(parts) + 1), b"\0" * 512 * rng.choice([1, 1, 2]))
+        if rng.random() < 0.5:
+            parts += [member(), b"\0" * 1024]
+        data = b"".join(parts)
+        if rng.random() < 0.1:
+            data = data[:rng.randrange(len(data) + 1)]
+        if rng.random() < 0.1:
+            data += bytes(rng.choice([0, 0, 1]) for _ in range(rng.randrange(1, 511)))          # a tail shorter than a header
+        add(data[:32768])
+    # GNU 1.0 sparse members: PAX major/minor, then the map in the data area
+    for _ in range(150 if q else 2000):
+        cnt = rng.choice([1, 2, 3, 40, 100])
+        nums = [rng.choice([0, 512, 1024, 4096, 10**6, rng.randrange(10**9)]) for _ in range(2 * cnt)]
+        txt = b"%d\n" % cnt + b"".join(b"%d\n" % x for x in nums)
+        if rng.random() < 0.2:
+            p = rng.randrange(len(txt)); txt = txt[:p] + bytes([rng.choice(b"x\n 0\0")]) + txt[p + 1:]
+        mapblk = txt + b"\0" * ((-len(txt)) % 512)
+        recs = TL.pax_rec(b"GNU.sparse.major", b"1") + TL.pax_rec(b"GNU.sparse.minor", b"0") + \
+            TL.pax_rec(b"GNU.sparse.name", b"sp") + TL.pax_rec(b"GNU.sparse.realsize", b"%d" % rng.choice([0, 4096, 10**7]))
+        body = rng.choice([0, 512, 4096])
+        size = rng.choice([len(mapblk) + body, len(mapblk), 0, 511, len(mapblk) + body + 512])
+        add((TL.ext_record(b"x", recs) + H(b"GNUSparseFile.0/sp", size) + mapblk + b"D" * body + b"\0" * 1024)[:20480])
+    limit = max_dir_nesting()
+    for n in (limit, limit + 1, 30000):
+        add(TL.tar_deep(rng, n, "d"))
     return L
 
 
